@@ -299,6 +299,95 @@ theorem makunbound_frame (i : Inst) (x y : Name) (h : y ≠ x) :
 
 example : getSlot (writeSlot [(0, some 1), (1, none), (2, some 3)] 1 9) 2 = some (some 3) := by decide
 
+/-! ## instances that exist across a redefinition
+
+  slip documents (defclass): "If the named class already exists it is over-written but existing
+  objects continue to reference the original class." `World` adds class-object identity (name,
+  generation) to the state; an `Obj` references the class object it was made from. -/
+
+/-- the class table of the world is the state all the theorems above are about -/
+theorem runW_st (h : List (Name × ClassDef)) : (runW h).st = run h := by
+  rw [runW_eq, foldl_stepW_st, run_eq]
+  rfl
+
+/-- instance_coherent: at every point of any history and for every instance (new, of a redefined
+    class, of a subclass of one): typep, the applicable methods and
+    `(class-precedence (class-of i))` use one and the same list. -/
+theorem instance_coherent (w : World) (o : Obj) (p : List Name) (hp : objPrec w o = some p)
+    (k : Name) (ms : List Name) :
+    (objTypep w o k = some true ↔ k ∈ p) ∧
+    ∃ a, objApplicable w o ms = some a ∧ a.Sublist p ∧ ∀ j, j ∈ a ↔ j ∈ p ∧ j ∈ ms := by
+  refine ⟨by simp [objTypep, hp, isA_iff_mem], p.filter (fun j => ms.contains j),
+    by simp [objApplicable, hp], List.filter_sublist, ?_⟩
+  intro j
+  simp [List.mem_filter]
+
+/-- a new instance references the registered class object and has the class's precedence list -/
+theorem new_instance_is_current (w : World) (c : Name) (args : List (Name × Val)) (o : Obj)
+    (h : makeObj w c args = .ok o) :
+    o.cls = c ∧ objIsCurrent w o = true ∧ objPrec w o = precOf w.st c := by
+  unfold makeObj at h
+  cases hm : makeInstance w.st c args with
+  | error e => simp [hm] at h
+  | ok i =>
+    simp only [hm, Except.ok.injEq] at h
+    subst h
+    simp [objIsCurrent, objPrec, objInh, precOf]
+
+/-- an instance whose class object is still the registered one follows its class: with
+    `redefine_propagates`, existing instances of the *subclasses* of a redefined class see the new
+    precedence list (their class object is re-merged in place) -/
+theorem live_instance_follows_class (w : World) (o : Obj) (h : objIsCurrent w o = true) :
+    objPrec w o = precOf w.st o.cls := by
+  have : o.gen = w.gens o.cls := by simpa [objIsCurrent] using h
+  simp [objPrec, objInh, precOf, this]
+
+/-- an instance of a superseded class object keeps that object's list through every later
+    history, and never becomes "current" again -/
+theorem superseded_instance_frozen (h0 h : List (Name × ClassDef)) (o : Obj)
+    (ho : o.gen < (runW h0).gens o.cls) :
+    objPrec (runW (h0 ++ h)) o = objPrec (runW h0) o ∧ objIsCurrent (runW (h0 ++ h)) o = false := by
+  have e : runW (h0 ++ h) = h.foldl stepW (runW h0) := by
+    rw [runW_eq, List.foldl_append]; rfl
+  constructor
+  · simp only [objPrec, e, foldl_objInh_of_old h ho]
+  · have hmono : ∀ (h : List (Name × ClassDef)) (w : World), o.gen < w.gens o.cls →
+        o.gen < (h.foldl stepW w).gens o.cls := by
+      intro h
+      induction h with
+      | nil => intro w hw; exact hw
+      | cons p h ih =>
+        intro w hw
+        exact ih _ (Nat.lt_of_lt_of_le hw (gens_mono w p.1 p.2 o.cls))
+    have := hmono h (runW h0) ho
+    rw [e]
+    simp only [objIsCurrent, decide_eq_false_iff_not]
+    omega
+
+/-- existing_instance_keeps_class: when the class of an instance is redefined — and whatever is
+    defined afterwards — the instance keeps the precedence list its class object had (so typep
+    and method applicability of that instance do not change, by `instance_coherent`), while
+    `class-of` is no longer the registered class of that name. -/
+theorem existing_instance_keeps_class (h0 h : List (Name × ClassDef)) (o : Obj) (d : ClassDef)
+    (hcur : objIsCurrent (runW h0) o = true) (hdef : (find (runW h0).st o.cls).isSome) :
+    objPrec (runW (h0 ++ (o.cls, d) :: h)) o = objPrec (runW h0) o ∧
+    objIsCurrent (runW (h0 ++ (o.cls, d) :: h)) o = false := by
+  have hg : o.gen = (runW h0).gens o.cls := by simpa [objIsCurrent] using hcur
+  have e1 : runW (h0 ++ [(o.cls, d)]) = defclassW (runW h0) o.cls d := by
+    rw [runW_eq, List.foldl_append]; rfl
+  have hlt : o.gen < (runW (h0 ++ [(o.cls, d)])).gens o.cls := by
+    rw [e1]; simp [defclassW, hg]
+  have hs := superseded_instance_frozen (h0 ++ [(o.cls, d)]) h o hlt
+  have happ : h0 ++ [(o.cls, d)] ++ h = h0 ++ (o.cls, d) :: h := by simp
+  rw [happ] at hs
+  refine ⟨?_, hs.2⟩
+  rw [hs.1, e1]
+  simp only [objPrec, objInh_at_supersession hg hdef d]
+
+example : (match makeObj (runW [(0, ⟨[], []⟩), (1, ⟨[0], []⟩)]) 1 [] with
+    | .ok o => objPrec (runW ([(0, ⟨[], []⟩), (1, ⟨[0], []⟩)] ++ [(3, ⟨[], []⟩), (1, ⟨[3], []⟩)])) o
+    | .error _ => none) = some [1, 0] := by decide
+
 /-! ## two facts that tie the model's shape to the code's -/
 
 /-- initarg_order_irrelevant: when no slot is reached by two of the supplied pairs, the order in
